@@ -207,7 +207,11 @@ func (s *SMF) finishTempoChanges() {
 
 func (s *SMF) calculateAbsTimes() {
 	var lasttcTick, lasttcTimeMicroSec int64
-	mt := s.TimeFormat.(MetricTicks)
+	mt, isMetric := s.TimeFormat.(MetricTicks)
+	if !isMetric {
+		// tempo based times are only defined for metric ticks, not for SMPTE time code
+		return
+	}
 	for _, tc := range s.tempoChanges {
 		diffTicks := tc.AbsTicks - lasttcTick
 
